@@ -66,6 +66,8 @@ def _lind(draw):
             "nt": draw(st.integers(3, 8)), "dense": draw(st.integers(1, 10) | st.sampled_from([1, 2, 3])),
             "x": draw(st.sampled_from(XT)), "k0": draw(st.sampled_from([0, 0, 0, 2, -1])),
             "jit_steps": draw(st.integers(1, 7)), "save": draw(st.booleans()),
+            # additionally: the same model with pure dephasing in the superoperator and in the direct propagation
+            "pdeph": draw(st.sampled_from([None, None, "Lorentzian", "Gaussian"])),
             # apply() with a list of equidistant grid times [first index, stride, count] (the list form of apply() builds
             # a TimeAxis from the first two entries), not necessarily starting at the first point; use of the
             # calculated superoperator inside the eigenbasis of the Hamiltonian
@@ -337,6 +339,31 @@ def _check_lind(case, ctx):
         ctx.bound("rwa-conversion/equals-lab-exponential", worst,
                   bound + 1e-13 * float(numpy.linalg.norm(H, 2)) * abs(step) * (nt + abs(k0)), where=tag)
     _jit(ctx, make, data, case, tag)
+    if case.get("pdeph"):
+        # with pure dephasing the superoperator and the direct propagation use the same splitting; they have to agree
+        # (no exact exponential is claimed here: dephasing rates and generator need not commute)
+        from quantarhei.qm import PureDephasing
+        g = 0.02 * (numpy.ones((dim, dim)) - numpy.eye(dim)) * (1.0 + numpy.add.outer(numpy.arange(dim), numpy.arange(dim)) / 4.0)
+        if case["pdeph"] == "Gaussian":
+            g = g / (20.0 * max(1e-9, abs(step)))
+
+        def run_pd():
+            time, ham, relt = make()
+            eso = EvolutionSuperOperator(time, ham, relt, pdeph=PureDephasing(drates=g.copy(), dtype=case["pdeph"]),
+                                         mode="all")
+            eso.set_dense_dt(dense)
+            eso.calculate()
+            ap = [numpy.array(eso.apply(float(t), ReducedDensityMatrix(data=rho0.copy())).data) for t in time.data]
+            time2, ham2, relt2 = make()
+            prop = ReducedDensityMatrixPropagator(time2, ham2, relt2,
+                                                  PDeph=PureDephasing(drates=g.copy(), dtype=case["pdeph"]))
+            rt = prop.propagate(ReducedDensityMatrix(data=rho0.copy()), Nref=dense)
+            return numpy.array(ap), numpy.array(rt.data)
+        ok, r = guarded(ctx, "calculate", run_pd, tag + "/pdeph-" + case["pdeph"])
+        if ok:
+            ctx.label("pure-dephasing:" + case["pdeph"])
+            ctx.close("apply-equals-propagation", r[0], r[1], rtol=1e-8, scale=1.0,
+                      where=tag + "/pdeph-" + case["pdeph"], dense=dense)
 
 
 def _check_red(case, ctx):
